@@ -13,14 +13,14 @@ from vmon.ref import equiv
 
 ID = 'C09'
 RULE = ('interstitial: random crystals (as C02) x {unimodular re-basing + atom permutation through the reducing constructor, '
-        'non-reduced supercell |det| 2..3 with permuted atoms}; vacancy: {fcc, bcc, sc, hcp, honey, square, tria, diamond, omega, b2} x '
+        'non-reduced supercell |det| 2..3 with permuted atoms (noreduce=True), the same supercell given to the reducing constructor}; vacancy: {fcc, bcc, sc, hcp, honey, square, tria, diamond, omega, b2} x '
         '{re-basing + permutation, conventional/super cell (thorough: fcc cubic cell, hcp orthohexagonal, 2-D doubled cells)} x random '
         'inputs; non-trivial = Q differs from P in lattice vectors, atom order or cell size; distinct = (crystal, description, input)')
 ASSUMPTIONS = ['interstitial D: 1e-9 x scale; vacancy tensors: 1e-4 x scale (different k-point meshes for different cells; observed <= 2e-6)',
                'supercell descriptions are built with noreduce=True from integer matrices that keep an orthogonal or already reduced cell '
                'shape, so that the symmetry search (entries -1..1) remains complete for them',
                'classes of Q are always unions of geometric images of classes of P (checked: clause C09:class-consistency)']
-REQUIRED_OBS = {'eval:C09:inter:D': 30, 'eval:C09:vac:Lss': 10, 'desc:rebase': 10, 'desc:supercell': 5}
+REQUIRED_OBS = {'eval:C09:inter:D': 30, 'eval:C09:vac:Lss': 10, 'desc:rebase': 10, 'desc:supercell': 5, 'desc:supercell-reduced': 5}
 CASE_TIMEOUT = 2400
 VQUICK = ['fcc', 'bcc', 'hcp', 'honey', 'square', 'diamond', 'omega', 'tria']
 VTHOROUGH = VQUICK + ['sc', 'b2', 'lieb', 'kagome', 'rect', 'tet']
@@ -34,6 +34,9 @@ def cases(tier, seed):
     names = VQUICK if tier == 'quick' else VTHOROUGH
     for ci, n in enumerate(names):
         out.append({'kind': 'vac', 'seed': seed, 'idx': 1000 + ci, 'name': n, 'desc': 'rebase', 'ninputs': 2 if tier == 'quick' else 5,
+                    'hashseed': ci % 3})
+    for ci, n in enumerate(['hcp', 'honey', 'diamond'] if tier == 'quick' else ['hcp', 'honey', 'diamond', 'omega', 'lieb', 'b2', 'kagome']):
+        out.append({'kind': 'vac', 'seed': seed, 'idx': 3000 + ci, 'name': n, 'desc': 'supercell-reduced', 'ninputs': 2 if tier == 'quick' else 4,
                     'hashseed': ci % 3})
     for ci, n in enumerate(['square', 'tria', 'fcc'] if tier == 'quick' else list(SUPER)):
         out.append({'kind': 'vac', 'seed': seed, 'idx': 2000 + ci, 'name': n, 'desc': 'supercell', 'ninputs': 2 if tier == 'quick' else 4,
@@ -62,6 +65,8 @@ def redescribe(P, rng, how, S=None):
         basis = [[lst[k] for k in rng.permutation(len(lst))] for lst in basis]
         return crystal.Crystal(latt, basis), {'how': how, 'U': U}
     latt, basis = equiv.supercell_description(P, S, rng)
+    if how == 'supercell-reduced':  # the default constructor has to reduce the cell back to a primitive one
+        return crystal.Crystal(latt, basis), {'how': how, 'S': S}
     return crystal.Crystal(latt, basis, noreduce=True), {'how': how, 'S': S}
 
 
@@ -73,15 +78,15 @@ def run_inter(case, mon):
         w = work_inter.draw(rng, maxsites=4)
         if w is None: continue
         P, chem, sl, jn, N = w['crys'], w['chem'], w['sl'], w['jn'], w['N']
-        how = 'rebase' if k % 2 == 0 else 'supercell'
+        how = ('rebase', 'supercell', 'supercell-reduced', 'supercell')[k % 4]
         S = None
-        if how == 'supercell':
+        if how != 'rebase':
             S = np.diag([int(x) for x in rng.permutation([2] + [1] * (P.dim - 1))])
             if rng.uniform() < 0.3: S[S == 2] = 3
         with mon.guard('C09:inter'):
             Q, d = redescribe(P, rng, how, S)
             t, mp = equiv.site_map(P, Q)
-            if mp is None or (how == 'rebase' and Q.N != P.N):
+            if mp is None or (how != 'supercell' and Q.N != P.N):
                 mon.check(False, 'C09:same-crystal', 'description Q does not describe P: %s %s' % (d, w['desc']))
                 continue
             mon.count('desc:' + how)
@@ -129,11 +134,14 @@ def run_vac(case, mon):
     dP = work_vac.get_calc(name, 1)
     P, chem = dP.crys, dP.chem
     crys0, chem0, cutoff = gen.named(name)
-    Q, d = redescribe(P, rng, case['desc'], SUPER.get(name))
+    S = SUPER.get(name)
+    if case['desc'] == 'supercell-reduced':
+        S = np.diag([int(x) for x in rng.permutation([int(rng.integers(2, 4))] + [1] * (P.dim - 1))])
+    Q, d = redescribe(P, rng, case['desc'], S)
     t, mp = equiv.site_map(P, Q)
     sample = {'crystal': name, 'Q': d}
-    if mp is None:
-        mon.check(False, 'C09:same-crystal', 'description Q does not describe P: %s' % d)
+    if mp is None or (case['desc'] != 'supercell' and Q.N != P.N):
+        mon.check(False, 'C09:same-crystal', 'description Q does not describe P (|Q|=%d atoms, |P|=%d): %s' % (Q.N, P.N, d))
         return sample
     mon.count('desc:' + case['desc'])
     slQ, jnQ = Q.sitelist(chem), Q.jumpnetwork(chem, cutoff)
